@@ -10,7 +10,7 @@ from . import inst_common as ic
 
 GEN_SECTIONS = ["Tables", "Regexes", "Unicode"]
 # leaf functions whose ASTs are dumped from /repo and proved equal to the hand model (lean/Chartparse/Tie/Phrase.lean)
-LEAVES = {'Phrase': ['tickadd', 'after', 'during'], 'ComposeInst': [], 'LoopSp': []}
+LEAVES = {'Phrase': ['tickadd', 'after', 'during'], 'ComposeInst': [], 'LoopSp': [], 'ComposeLoopSp': []}
 IMP = ['computeStarPowerData']  # functions dumped as terms of the imperative embedding, run against CPython on every run
 TRUSTED = [
     "leaf ties: Py.evalBody (embedded Python subset, validated against CPython and the real functions every run) + the AST dump",
